@@ -30,7 +30,7 @@ class Raised(Exception):
 
 SAFE_BUILTINS = {
     "len": len, "range": range, "enumerate": enumerate, "str": str, "int": int, "list": list, "tuple": tuple, "sum": sum, "max": max, "min": min,
-    "dedent": textwrap.dedent, "indent": textwrap.indent, "zip": zip, "next": next, "iter": iter, "sorted": sorted, "repr": repr, "bool": bool, "abs": abs, "reversed": reversed, "ord": ord, "chr": chr, "set": set, "frozenset": frozenset, "any": any, "all": all, "dict": dict, "map": map, "filter": filter, "bytes": bytes, "bytearray": bytearray, "divmod": divmod,
+    "dedent": textwrap.dedent, "indent": textwrap.indent, "zip": zip, "next": next, "iter": iter, "isinstance": isinstance, "sorted": sorted, "repr": repr, "bool": bool, "abs": abs, "reversed": reversed, "ord": ord, "chr": chr, "set": set, "frozenset": frozenset, "any": any, "all": all, "dict": dict, "map": map, "filter": filter, "bytes": bytes, "bytearray": bytearray, "divmod": divmod,
 }
 SAFE_METHODS = {
     str: {"encode", "isdigit", "isalpha", "isalnum", "isnumeric", "isidentifier", "isspace", "join", "strip", "lstrip", "rstrip", "format", "startswith", "endswith", "split", "replace", "upper", "lower", "partition",
@@ -45,6 +45,12 @@ SAFE_METHODS = {
     bytearray: {"append", "extend", "find", "rfind", "index", "count", "startswith", "endswith", "decode", "hex", "clear", "split", "partition", "strip", "rstrip", "lstrip", "ljust", "rjust", "center", "zfill", "replace"},
     bytes: {"hex", "startswith", "endswith", "decode", "join", "find", "rfind", "index", "count", "split", "partition", "rpartition", "strip", "rstrip", "lstrip", "replace", "ljust", "rjust", "center", "zfill", "upper", "lower", "isdigit", "isalpha", "removeprefix", "removesuffix"},
 }
+import re as _re_mod
+
+_RE_MATCH = type(_re_mod.match("", ""))
+_RE_PATTERN = type(_re_mod.compile(""))
+SAFE_METHODS[_RE_MATCH] = {"group", "groups", "groupdict", "start", "end", "span", "expand"}
+SAFE_METHODS[_RE_PATTERN] = {"match", "search", "fullmatch", "findall", "finditer", "sub", "subn", "split"}
 _SAFE_STATIC = {("int", "from_bytes"): (int, int.from_bytes), ("bytes", "fromhex"): (bytes, bytes.fromhex), ("str", "join"): (str, str.join)}
 _BIN = {
     ast.Add: lambda a, b: a + b, ast.Sub: lambda a, b: a - b, ast.Mult: lambda a, b: a * b, ast.FloorDiv: lambda a, b: a // b,
@@ -124,11 +130,13 @@ class ClassObj:
         self.node, self.env = node, env
         self.methods: dict[str, UserFunc] = {}
         self.attrs: dict[str, Any] = {}
+        self.mro_classes: list = []
         for b in node.bases:
             base = env.get(norm(b))
             if isinstance(base, ClassObj):
                 self.methods.update(base.methods)
                 self.attrs.update(base.attrs)
+                self.mro_classes += [base, *base.mro_classes]
             elif norm(b) not in ("object",):
                 self.opaque_base = norm(b)
         decos = {norm(d.func if isinstance(d, ast.Call) else d).split(".")[-1] for d in node.decorator_list}
@@ -139,6 +147,7 @@ class ClassObj:
         for st in node.body:
             if isinstance(st, ast.FunctionDef):
                 self.methods[st.name] = UserFunc(st, env)
+                self.methods[st.name].owner = self
             elif isinstance(st, ast.AnnAssign) and isinstance(st.target, ast.Name):
                 self.fields.append((st.target.id, st.value))
             elif isinstance(st, ast.Assign) and len(st.targets) == 1 and isinstance(st.targets[0], ast.Name) and isinstance(st.value, ast.Constant):
@@ -217,6 +226,18 @@ class Evaluator:
                     raise Refused(f"missing keyword {kw.arg}")
                 bound[kw.arg] = self.ev(d, env)
         env.update(bound)
+        owner = getattr(f, "owner", None)
+        if owner is not None and owner.mro_classes and params and args and isinstance(args[0], Sym):
+            inst_, ev_ = args[0], self
+
+            def _super(*_a, owner=owner, inst_=inst_, ev_=ev_):
+                proxy = Sym(f"super:{owner.node.name}")
+                for base in reversed(owner.mro_classes):
+                    for mn, mf in base.methods.items():
+                        proxy.methods[mn] = Host(lambda *a, _mf=mf, **k: ev_.call_user(_mf, [inst_, *a], k))
+                return proxy
+
+            env["super"] = Host(_super)
         env.pop("__nonlocal__", None)
         env["__outer__"] = f.env if f.closure else None
         if f.generator:
@@ -299,7 +320,7 @@ class Evaluator:
             left = self.ev(e.left, env)
             for op, c in zip(e.ops, e.comparators):
                 right = self.ev(c, env)
-                if not _CMP[type(op)](left, right):
+                if not self._compare(op, left, right):
                     return False
                 left = right
             return True
@@ -325,6 +346,9 @@ class Evaluator:
                     if isinstance(m, UserFunc) and m.property:
                         return self.call_user(m, [v], {})
                     return ("symmethod", v, e.attr)
+                ga = v.methods.get("__getattr__")
+                if isinstance(ga, UserFunc):
+                    return self.call_user(ga, [v, e.attr], {})
                 if getattr(v, "strict", True):
                     raise Refused(f"attribute {e.attr} of {v}")
                 raise AttributeError(f"{v} has no attribute {e.attr}")
@@ -339,6 +363,10 @@ class Evaluator:
             for t, names in SAFE_METHODS.items():
                 if isinstance(v, t) and e.attr in names:
                     return getattr(v, e.attr)
+            if isinstance(v, _RE_MATCH) and e.attr in ("string", "pos", "endpos", "lastgroup", "lastindex"):
+                return getattr(v, e.attr)
+            if type(v).__name__ == "Scanner" and type(v).__module__ == "re" and e.attr in ("match", "scan"):
+                return getattr(v, e.attr)
             raise Refused(f"attribute {e.attr} on {type(v).__name__}")
         if isinstance(e, ast.Call):
             f = self.ev(e.func, env)
@@ -424,6 +452,15 @@ class Evaluator:
                 return dict.fromkeys(*args)
             if any(f is v_[1] for v_ in _SAFE_STATIC.values()):
                 return f(*[list(a_) if isinstance(a_, GenList) else a_ for a_ in args], **kwargs)
+            if f is len and len(args) == 1 and self._user_method(args[0], "__len__") is not None:
+                return self.call_user(args[0].methods["__len__"], [args[0]], {})
+            if f is isinstance and len(args) == 2 and (isinstance(args[1], ClassObj) or (isinstance(args[1], tuple) and any(isinstance(k_, ClassObj) for k_ in args[1]))):
+                ks_ = args[1] if isinstance(args[1], tuple) else (args[1],)
+                return any(isinstance(k_, ClassObj) and isinstance(args[0], Sym) and getattr(args[0], "cls", None) is not None and
+                           (args[0].cls is k_ or k_ in getattr(args[0].cls, "mro_classes", ())) for k_ in ks_) or \
+                    any(isinstance(k_, type) and isinstance(args[0], k_) and not isinstance(args[0], Sym) for k_ in ks_)
+            if hasattr(f, "__self__") and type(f.__self__).__name__ == "Scanner" and type(f.__self__).__module__ == "re" and f.__name__ == "scan":
+                return f(*args)
             if f in SAFE_BUILTINS.values() or (hasattr(f, "__self__") and type(f.__self__) in SAFE_METHODS and f.__name__ in SAFE_METHODS[type(f.__self__)]):
                 def _callable(v_):
                     # a function of the interpreted fragment handed to a builtin (sorted / max / min key, map / filter function)
@@ -457,6 +494,37 @@ class Evaluator:
             env[e.target.id] = v
             return v
         raise Refused(f"expression {type(e).__name__}: {norm(e)[:60]}")
+
+    def _user_method(self, o: Any, name: str) -> "UserFunc | None":
+        m = o.methods.get(name) if isinstance(o, Sym) else None
+        return m if isinstance(m, UserFunc) else None
+
+    def _eq(self, a: Any, b: Any) -> bool:
+        """== with the __eq__ an interpreted class defines (either operand)."""
+        m = self._user_method(a, "__eq__")
+        if m is not None:
+            return bool(self.call_user(m, [a, b], {}))
+        m = self._user_method(b, "__eq__")
+        if m is not None:
+            return bool(self.call_user(m, [b, a], {}))
+        return a == b
+
+    def _compare(self, op: ast.cmpop, left: Any, right: Any) -> bool:
+        if isinstance(op, ast.Eq):
+            return self._eq(left, right)
+        if isinstance(op, ast.NotEq):
+            m = self._user_method(left, "__ne__")
+            return bool(self.call_user(m, [left, right], {})) if m is not None else not self._eq(left, right)
+        if isinstance(op, (ast.In, ast.NotIn)):
+            m = self._user_method(right, "__contains__")
+            if m is not None:
+                found = bool(self.call_user(m, [right, left], {}))
+            elif isinstance(right, (list, tuple)) and (self._user_method(left, "__eq__") or any(self._user_method(x, "__eq__") for x in right)):
+                found = any(x is left or self._eq(left, x) for x in right)
+            else:
+                found = left in right
+            return found if isinstance(op, ast.In) else not found
+        return _CMP[type(op)](left, right)
 
     def _comp(self, gens, i, env, emit) -> None:
         if i == len(gens):
